@@ -10,7 +10,8 @@ def R(l, r, an=0, c=0, t=()):
 
 
 def entry(id, rules, terms=None, maxlen=4, alphabet=None, inputs=()):
-    ts = sorted({s for r in rules for s in r["r"] if 0 < s < 10} | {r["l"] for r in rules if 0 < r["l"] < 10}
+    isT = lambda k: 0 < k < 10 or 100 <= k < 1000
+    ts = sorted({s for r in rules for s in r["r"] if isT(s)} | {r["l"] for r in rules if isT(r["l"])}
                 | set(alphabet or []) | {t for x in inputs for t in x})
     if terms is None:
         terms = [{"n": t, "c": t} for t in ts]
@@ -64,7 +65,35 @@ def curated():
     c.append(entry("ctxfragR", [R(T, [B]), R(T, [B, T], 1, 1, [1, 2]), R(B, [1, S, 2], 0, 0, [2]), R(S, [3, A, 4], 2, 1, [2]), R(S, [5, A, 6], 3, 1, [2]), R(A, [7, 8], 4, 1, [1, 2])],
                    maxlen=0, alphabet=[1], inputs=[[1, 3, 7, 8, 4, 2, 1, 5, 7, 8, 6, 2], [1, 5, 7, 8, 6, 2, 1, 3, 7, 8, 4, 2], [1, 3, 7, 8, 4, 2] * 2 + [1, 5, 7, 8, 6, 2] * 2 + [1, 3, 7, 8, 4, 2],
                                                        [1, 3, 7, 8, 6, 2]]))
+    # 14 ambiguous prefix followed by a nullable symbol in the middle of a rule (items advanced over a nullable
+    #    symbol keep one origin each)
+    c.append(entry("nullmid", [R(S, [A, B], 1, 1, [1, 2]), R(A, [1], 2, 1, [1]), R(A, [1, 1], 3, 1, [1, 2]), R(B, [C, D, 3], 4, 1, [1, 2]),
+                               R(C, [1], 5, 1, [1]), R(C, [1, 1], 6, 1, [1, 2]), R(D, []), R(D, [2], 7, 1, [1])], maxlen=5, alphabet=[1, 2, 3]))
+    # 15 same rule completed with different origins (variable-length tail): S : Q P ; Q : Q a | a ; P : a R ; R : R a |
+    c.append(entry("sameruleorig", [R(S, [A, B], 1, 1, [1, 2]), R(A, [A, 1], 2, 1, [1]), R(A, [1], 3, 1, []), R(B, [1, C], 4, 1, [2]), R(C, [C, 1], 5, 1, [1]), R(C, [])],
+                   maxlen=6, alphabet=[1]))
     return c
+
+
+def wide_terminal_sets():
+    """Curated grammars padded with dummy terminals so that the parser's terminal sets (bit vectors of machine
+    words) have more than 64 and more than 128 members; the padding is declared before or after the real
+    terminals and is reachable through one extra alternative of the start symbol."""
+    out = []
+    base = {e["id"]: e for e in curated()}
+    for gid in ("expr", "followchain", "nullchain", "stmts", "hiddenleft"):
+        e = base[gid]
+        for npad in (62, 70, 130):
+            pads = list(range(101, 101 + npad))
+            start = e["rules"][0]["l"]
+            for where in ("before", "after"):
+                real = [t for t in e["terms"]]
+                padterms = [{"n": p, "c": p} for p in pads]
+                terms = padterms + real if where == "before" else real + padterms
+                rules = list(e["rules"]) + [R(start, [pads[0], pads[-1]])]
+                out.append({"id": "wide-%s-%d-%s" % (gid, npad, where), "terms": terms, "rules": rules, "maxlen": min(e["maxlen"], 3),
+                            "alphabet": e["alphabet"], "inputs": e["inputs"][:3] + [[pads[0], pads[-1]], [pads[0]]]})
+    return out
 
 
 def chain_family(depth=5):
@@ -119,7 +148,7 @@ def loop_via_late_nullable():
     return out
 
 
-def random_grammars(seed, n, nnts=4, nterms=3, maxrules=7, maxrhs=3, err=False, trans=False, maxlen=3):
+def random_grammars(seed, n, nnts=4, nterms=3, maxrules=7, maxrhs=3, err=False, trans=False, maxlen=3, empty_bias=0.0):
     rnd = random.Random(seed)
     out = []
     nts = [11 + i for i in range(nnts)]
@@ -131,6 +160,8 @@ def random_grammars(seed, n, nnts=4, nterms=3, maxrules=7, maxrhs=3, err=False, 
             l = nts[0] if i == 0 else rnd.choice(nts)
             ln = rnd.choice([0, 1, 1, 2, 2, 3][:maxrhs + 3])
             ln = min(ln, maxrhs)
+            if rnd.random() < empty_bias:
+                ln = 0
             syms = ts + nts + ([0] if err else [])
             # bias towards terminals so that most grammars are productive
             r = [rnd.choice(ts) if rnd.random() < 0.45 else rnd.choice(syms) for _ in range(ln)]
@@ -153,7 +184,7 @@ def random_grammars(seed, n, nnts=4, nterms=3, maxrules=7, maxrhs=3, err=False, 
         reps = []
         for _ in range(3):
             frag = [rnd.choice(ts) for _ in range(rnd.randint(1, 3))]
-            reps.append(frag * rnd.randint(2, 4))
+            reps.append((frag * rnd.randint(2, 4))[:7])      # longer inputs make the declarative counting oracle slow
         out.append(entry("rnd-%d-%d" % (seed, k), rules, terms=[{"n": t, "c": t} for t in ts], maxlen=maxlen, alphabet=ts, inputs=reps))
     return out
 
